@@ -379,12 +379,10 @@ impl CelValue {
     }
 
     pub fn neq(self, rhs: CelValue) -> CelValue {
-        self.error_prop_or(rhs, |lhs, rhs| {
-            if let CelValue::Bool(res) = CelValueDyn::eq(&lhs, &rhs) {
-                return CelValue::from_bool(!res);
-            }
-
-            unreachable!();
+        self.error_prop_or(rhs, |lhs, rhs| match CelValueDyn::eq(&lhs, &rhs) {
+            CelValue::Bool(res) => CelValue::from_bool(!res),
+            // eq yields the error of a failed element comparison
+            other => other,
         })
     }
 
